@@ -34,7 +34,7 @@ NO_SHRINK = ('hashes',)
 RULE = ('each run = generated tree + Manifest layout (nested, compressed sub-Manifests, paths needing escapes), '
         'top-level originally signed or plain, 0-3 file edits, then an update+save (30%: followed by more edits and a second update+save on the same loader object) with sign option unset/on/off, '
         'explicit key id (signer / other / expired key / unknown id) or default key, through library or CLI, with a '
-        'signer fault drawn from {none, exit 1, exit 2, SIGKILL, SIGTERM, no output, binary missing}; a twin world '
+        'signer fault drawn from {none, exit 1, exit 2, exit 2 after header and text were written, SIGKILL, SIGTERM, no output, binary missing}; a twin world '
         'runs the same update with signing off; non-trivial = signing was expected or a signer fault was injected; '
         'distinct = distinct outcome digest')
 PLAN = {'quick': {'n': 2000, 'budget_s': 90, 'block': 6, 'det': 2},
@@ -64,7 +64,7 @@ def generate(rng, tier, idx):
             'top': top, 'watermark': rng.choice([None, None, 0, 100000]) if top == 'Manifest' else rng.choice([None, 0, 100000, 100000]),
             'api': rng.choice(['lib', 'lib', 'cli']) if top == 'Manifest' else 'lib', 'force': rng.random() < 0.5,
             'hashes': rng.choice([['SHA256'], ['MD5', 'SHA1'], ['BLAKE2B', 'SHA512']]),
-            'fault': rng.choice([None] * 6 + ['exit1', 'exit2', 'kill', 'term', 'nooutput', 'missing'])}
+            'fault': rng.choice([None] * 6 + ['exit1', 'exit2', 'kill', 'term', 'nooutput', 'missing', 'partial2', 'partial2'])}
 
 
 def norm(text):
